@@ -12,6 +12,7 @@ import (
 	"github.com/paulsonkoly/chess-3/move"
 	"github.com/paulsonkoly/chess-3/uci"
 
+	"verif/harness/conv"
 	"verif/harness/eng"
 	"verif/harness/ev"
 	"verif/harness/gen"
@@ -37,7 +38,7 @@ func checkAll(r *ev.Run, lc *ev.Local, ms *move.Store, p *ref.Pos, b *board.Boar
 	var in [1 << 15]bool
 	g := eng.Gen(b, ms)
 	for _, m := range g {
-		in[int(m)&0x7fff] = true
+		in[conv.Triple(m)] = true
 	}
 	var refIn [1 << 15]bool
 	for _, m := range p.Pseudo() {
@@ -46,7 +47,7 @@ func checkAll(r *ev.Run, lc *ev.Local, ms *move.Store, p *ref.Pos, b *board.Boar
 	fen := p.FEN()
 	bad := 0
 	for e := 0; e < 1<<15; e++ {
-		got := b.IsPseudoLegal(move.Move(e))
+		got := b.IsPseudoLegal(conv.FromTriple(e))
 		if got == in[e] {
 			if got {
 				lc.C["accepted_generated"]++
@@ -218,7 +219,11 @@ func uciPosition(r *ev.Run, lc *ev.Local, ms *move.Store, p *ref.Pos, rng *rand.
 		f := b.FEN()
 		b.UndoMove(m, rv)
 		succ[f] = m
-		byEnc[int(m)] = f
+		byEnc[conv.Triple(m)] = f
+	}
+	legalTxt := map[string]bool{}
+	for _, m := range p.Legal() {
+		legalTxt[m.String()] = true
 	}
 	var strs []string
 	promo := []string{"", "q", "r", "b", "n"}
@@ -285,6 +290,12 @@ func uciPosition(r *ev.Run, lc *ev.Local, ms *move.Store, p *ref.Pos, rng *rand.
 		}
 		if verbose && got != fen {
 			fmt.Printf("replay: %q -> %s (generated=%v)\n", s, got, isGen)
+		}
+		if isGen && got == fen && !legalTxt[s] {
+			// a generated move that leaves the mover's king attacked: a driver may play it (the
+			// search filters later) or refuse it; both keep non-moves off the board
+			lc.C["uci_pseudo_legal_illegal_moves_refused"]++
+			continue
 		}
 		if got != want {
 			cls := "plays-non-generated-move"
